@@ -4,7 +4,7 @@ cd /verif || exit 2
 patch=$1; shift
 props=${@:-$(python3 -c "import json;print(' '.join(c['property_id'] for c in json.load(open('MANIFEST.json'))['checks']))")}
 git -C /repo apply "$patch" || { echo "patch does not apply to /repo"; exit 3; }
-mkdir -p /tmp/seed_ev; hit=""
+mkdir -p /tmp/seed_ev_$$/evidence; cp known_findings.json /tmp/seed_ev_$$/; hit=""
 for p in $props; do
   out=$(bin/stfscheck -p $p -tier quick -verif /tmp/seed_ev_$$ 2>&1); e=$?
   if [ $e -ne 0 ]; then hit="$hit $p"; echo "$out" | grep -E "^  (VIOLATED|UNDECIDED)|^BROKEN|^UNRESOLVED" | cut -c1-330; fi
